@@ -474,6 +474,17 @@ def inline_multi_return_calls(ctx: Ctx, f: Func, fn: ast.FunctionDef) -> bool:
     return changed
 
 
+def _guards_to_else(body: List[ast.stmt]) -> List[ast.stmt]:
+    """A loop body whose top-level guard clauses end in `continue` (`if c: [...]; continue` followed by the rest) written
+    as `if c: [...] else: <rest>` - the same control flow without the jump, so that the body can be copied per element."""
+    for i, st in enumerate(body):
+        if isinstance(st, ast.If) and not st.orelse and st.body and isinstance(st.body[-1], ast.Continue) and not any(isinstance(x, (ast.Break, ast.Continue)) for b in st.body[:-1] for x in ast.walk(b)):
+            rest = _guards_to_else(body[i + 1 :])
+            new_if = ast.copy_location(ast.If(test=st.test, body=(st.body[:-1] or [ast.copy_location(ast.Pass(), st)]), orelse=rest), st)
+            return body[:i] + [new_if]
+    return body
+
+
 def unroll_literal_loops(fn: ast.FunctionDef, consts: Optional[Dict[str, ast.AST]] = None) -> bool:
     """consts: module-level names bound once to a tuple/list literal (a dispatch table iterated by the function)."""
     changed = False
@@ -520,12 +531,12 @@ def unroll_literal_loops(fn: ast.FunctionDef, consts: Optional[Dict[str, ast.AST
                 and 0 < len(it.elts) <= 12
                 and all(_pure_arg(e) for e in it.elts)
                 and (isinstance(st.target, ast.Name) or all(isinstance(e, (ast.Tuple, ast.List)) and len(e.elts) == len(tnames) for e in it.elts))
-                and not any(isinstance(x, (ast.Break, ast.Continue)) for b in st.body for x in ast.walk(b))
+                and not any(isinstance(x, (ast.Break, ast.Continue)) for b in _guards_to_else(st.body) for x in ast.walk(b))
                 and not (set(tnames) & {n.id for b in st.body for n in ast.walk(b) if isinstance(n, ast.Name) and isinstance(n.ctx, ast.Store)})
             ):
                 for e in it.elts:
                     binding = {tnames[0]: e} if isinstance(st.target, ast.Name) else dict(zip(tnames, e.elts))
-                    for b in st.body:
+                    for b in _guards_to_else(st.body):
                         out.append(_SubstMany(binding).visit(clone(b)))
                 changed = True
                 continue
@@ -566,13 +577,24 @@ def _walrus_targets(e: ast.AST) -> set:
     return {x.target.id for x in ast.walk(e) if isinstance(x, ast.NamedExpr) and isinstance(x.target, ast.Name)}
 
 
+def _const_str(k: ast.AST) -> ast.AST:
+    """An f-string / concatenation / %-format of string constants only -> the constant (`f"_{'name'}"` after unrolling)."""
+    if isinstance(k, ast.JoinedStr) and all(isinstance(v, ast.Constant) or (isinstance(v, ast.FormattedValue) and isinstance(v.value, ast.Constant) and v.conversion == -1 and v.format_spec is None) for v in k.values):
+        return ast.copy_location(ast.Constant(value="".join(str(v.value if isinstance(v, ast.Constant) else v.value.value) for v in k.values)), k)
+    if isinstance(k, ast.BinOp) and isinstance(k.op, ast.Add):
+        l, r = _const_str(k.left), _const_str(k.right)
+        if isinstance(l, ast.Constant) and isinstance(r, ast.Constant) and isinstance(l.value, str) and isinstance(r.value, str):
+            return ast.copy_location(ast.Constant(value=l.value + r.value), k)
+    return k
+
+
 class _GetAttr(ast.NodeTransformer):
     changed = False
 
     def visit_Call(self, node: ast.Call):
         self.generic_visit(node)
         if isinstance(node.func, ast.Name) and node.func.id == "getattr" and len(node.args) == 2 and not node.keywords:
-            k = node.args[1]
+            k = _const_str(node.args[1])
             if isinstance(k, ast.Constant) and isinstance(k.value, str) and k.value.isidentifier():
                 self.changed = True
                 return ast.copy_location(ast.Attribute(value=node.args[0], attr=k.value, ctx=ast.Load()), node)
@@ -582,7 +604,7 @@ class _GetAttr(ast.NodeTransformer):
         self.generic_visit(node)
         c = node.value
         if isinstance(c, ast.Call) and isinstance(c.func, ast.Name) and c.func.id == "setattr" and len(c.args) == 3 and not c.keywords:
-            k = c.args[1]
+            k = _const_str(c.args[1])
             if isinstance(k, ast.Constant) and isinstance(k.value, str) and k.value.isidentifier():
                 self.changed = True
                 return ast.copy_location(ast.Assign(targets=[ast.Attribute(value=c.args[0], attr=k.value, ctx=ast.Store())], value=c.args[2]), node)
@@ -769,8 +791,9 @@ def split_conditional_assignments(fn: ast.FunctionDef) -> bool:
             if isinstance(st, ast.Try):
                 for h in st.handlers:
                     h.body = block(h.body)
-            val = getattr(st, "value", None) if isinstance(st, (ast.Assign, ast.AnnAssign)) else None
+            val = getattr(st, "value", None) if isinstance(st, (ast.Assign, ast.AnnAssign, ast.Return)) else None
             if isinstance(val, ast.IfExp):
+                # also `return A if C else B` -> `if C: return A` / `else: return B`
                 a, b = clone(st), clone(st)
                 a.value, b.value = val.body, val.orelse
                 out.append(ast.copy_location(ast.If(test=val.test, body=[a], orelse=[b]), st))
